@@ -10,7 +10,7 @@ REG = dict(   # rename to REG once the findings below are triaged (fixed in /rep
           "Mutants = EVERY single-point edit of each base program: each subexpression replaced by each of 19 literal alternatives (every grammar type, wrong-payload "
           "Option/List, empty list, tuple, closure, constructor, Float, Unit, throw) and by every name in scope, an unbound name and the function names; operator, "
           "callee, method name (17), field name, struct field/type name, pattern (11) and every annotation (10) replaced; an argument / parameter / struct field / "
-          "closure parameter dropped or added; a match arm or an else dropped; a returned value dropped or added; binders renamed. Plus, for every binder whose scope ends before the function body does (for variable, let inside an if/else/match-arm/for/while block, match payload, closure parameter, parameter of the other function), a reference to the bound name in a later statement of the function (variable referenced out of scope). Plus 99 frame-boundary programs: a local variable of the top level (plain, annotated, defined later, inside a top-level block) used in nine positions of a function or method body, which runs in a frame of its own. "
+          "closure parameter dropped or added; a match arm or an else dropped; a returned value dropped or added; binders renamed. Plus, for every binder whose scope ends before the function body does (for variable, let inside an if/else/match-arm/for/while block, match payload, closure parameter, parameter of the other function), a reference to the bound name in a later statement of the function (variable referenced out of scope). Plus 99 frame-boundary programs: a local variable of the top level (plain, annotated, defined later, inside a top-level block) used in nine positions of a function or method body, which runs in a frame of its own; and 72 programs reading a field whose hint is a type parameter of its struct from a receiver with a known type argument, used at its own and at every other type of a small pool. "
           "quick: depth 1 (canonical parameter fill) with all edits + depth 2 for one outer context per (inner template, role of the slot) with all edits inside "
           "the expanded slot (11-literal alphabet): ~46k programs. thorough: depth 1 with every parameter/literal fill and depth 2 for every outer context, all "
           "edits (~395k), plus every PAIR of disjoint edits (11-literal alphabet, leaves only) of the 84 depth-1 programs (~393k): deviation bound 2. "
@@ -333,6 +333,25 @@ def frame_boundary_items():
                "base": "frame-boundary", "kind": "mutant", "in_main": False}
 
 
+def generic_field_items():
+    """A field whose hint is a type parameter of its struct, read from a receiver with a known type argument and used where another
+    type is required (and, as controls, where its own type is required)."""
+    args = [("Int", "1"), ("String", '"s"'), ("List<Int>", "[1]"), ("Option<Int>", "Some(1)")]
+    uses = [("Int", "b.v + 1"), ("String", 'b.v ^ "x"'), ("Int", "let w: Int = b.v\n  w"), ("String", "let w: String = b.v\n  w"),
+            ("Int", "takes_int(b.v)"), ("List<Int>", "b.v.len()"), ("Option<Int>", "b.v.or_value(0)"), ("Int", "[b.v, 2].len()"),
+            ("String", 'if True { b.v } else { "t" }')]
+    ret = {"b.v + 1": "Int", 'b.v ^ "x"': "String", "let w: Int = b.v\n  w": "Int", "let w: String = b.v\n  w": "String", "takes_int(b.v)": "Int",
+           "b.v.len()": "Int", "b.v.or_value(0)": "Int", "[b.v, 2].len()": "Int", 'if True { b.v } else { "t" }': "String"}
+    for shape, decl, lit in (("one parameter", "struct Bx<T> { v: T }", "Bx{{ v: {x} }}", ), ("second of two parameters", "struct Bx<S, T> { u: S, v: T }", "Bx{{ u: True, v: {x} }}")):
+        for aty, alit in args:
+            for need, use in uses:
+                hint = f"Bx<{aty}>" if shape == "one parameter" else f"Bx<Bool, {aty}>"
+                src = f"{decl}\nfun takes_int(i: Int): Int {{ i }}\nfun g(b: {hint}): {ret[use]} {{\n  {use}\n}}\nprintln(string_repr(g({lit.format(x=alit)})))\n"
+                kind = "control" if need == aty else "misuse"
+                yield {"src": src, "label": f"field of a generic struct ({shape}) used at another type" if kind == "misuse" else "generic field control",
+                       "fine": f"generic field {shape}: {aty} used as {need} in `{use.splitlines()[0]}`", "base": "generic-field", "kind": "mutant", "in_main": False}
+
+
 def chunks(it, n):
     buf = []
     for x in it:
@@ -397,6 +416,11 @@ def run(ctx):
     ctx.bound("frame_boundary_programs", ex.n["programs"] - before[0])
     if ex.n["accepted"] - before[1] < 5 and not ctx.violations:
         raise Machinery("vacuous: the frame-boundary controls are not accepted by check")
+    before = ex.n["programs"], ex.n["accepted"]
+    ex.process(list(generic_field_items()))
+    ctx.bound("generic_field_programs", ex.n["programs"] - before[0])
+    if ex.n["accepted"] - before[1] < 5 and not ctx.violations:
+        raise Machinery("vacuous: the generic-field controls are not accepted by check")
     n_single = ex.n["programs"] - n_base
     # 3. thorough: every pair of disjoint edits of the depth-1 canonical programs, reduced alphabet
     n_pairs = 0
